@@ -18,7 +18,9 @@ PROP = dict(
         "sub-microsecond digits, offsets up to +-23:59 (oracle clause time-text)",
         "codec_ok: base64 decoding inverts base64 encoding of a hash",
         "strings are valid UTF-8 without NUL (what JSON request bodies decode to; encoding/json replaces invalid bytes by U+FFFD "
-        "and PostgreSQL refuses \\u0000 at insertion)",
+        "and PostgreSQL refuses \\u0000 at insertion); strings that enter through a URL path parameter or the Idempotency-Key header "
+        "can violate it on the unrepaired tree: known finding F-C13d, oracle clause invalid-utf8:<position> (entry path of obs-logcodec), "
+        "repair fixes/C13-invalid-utf8.diff makes the Commander refuse them",
         "the model covers the values the system writes: non-nil transaction, ids and amounts; target ids of type string / *big.Int; "
         "log type consistent with the payload type",
         "row path: the log date is UTC (the commander dates every log with ledger.Now())",
